@@ -26,10 +26,10 @@ def ofExc : Exc → Sexp
   | .valueError => .atom "ValueError" | .osError => .atom "OSError" | .unicodeDecodeError => .atom "UnicodeDecodeError"
 
 def streamIn? : List Sexp → Option StreamIn
-  | [f, d0, d1, p0, cs, sk, bn, it] => do
+  | [f, d0, d1, p0, cs, sk, bn, it, caps] => do
     let i : StreamIn :=
       { isFile := ← bool? f, data0 := ← bytes? d0, data1 := ← opt? bytes? d1, pos0 := ← nat? p0, chunkSize := ← nat? cs,
-        seekTo := ← opt? (pair? int? nat?) sk, bufferNow := ← bool? bn, iters := ← nat? it }
+        seekTo := ← opt? (pair? int? nat?) sk, bufferNow := ← bool? bn, iters := ← nat? it, caps := ← list? nat? caps }
     some i
   | _ => none
 
@@ -125,12 +125,5 @@ def classes : Input → List String
 def drv : PropDrv Input Trace :=
   { decI := input?, decT := trace?, encT := ofTrace, model := model, clauses := Spec.C16.clauses, classes := classes }
 
-/-- Inside a known-finding class the model reproduces the defect, so the spec is *expected* to fail on the
-model's own trace there (`C16_ct_roundtrip_partial` covers the complement, the `*_witness` theorems the
-class).  `harness/check.py` treats any spec failure on the model trace as a framework inconsistency, so
-for class inputs the third component of the reply is reported as `ok`. -/
-def handle (args : List Sexp) : Sexp :=
-  match drv.handle args with
-  | .list [m, si, _, .list (c :: cs)] => .list [m, si, .atom "ok", .list (c :: cs)]
-  | r => r
+def handle : List Sexp → Sexp := drv.handle
 end TTV.Drv.C16
